@@ -311,10 +311,12 @@ tx_outs:\n{tx_outs}
         signed for index input_index"""
 
         # consensus bugs related to invalid input indices
+        # (NONE / SINGLE are selected by the low five bits of the hash type, as in
+        # Bitcoin Core's SignatureHash: nHashType & 0x1f)
         DEFAULT = 1 << 248
         if input_index >= len(self.tx_ins):
             return DEFAULT
-        elif hash_type & 3 == SIGHASH_SINGLE and input_index >= len(self.tx_outs):
+        elif hash_type & 0x1F == SIGHASH_SINGLE and input_index >= len(self.tx_outs):
             return DEFAULT
         # create the serialization per spec
         # start with version: int_to_little_endian in 4 bytes
@@ -339,7 +341,7 @@ tx_outs:\n{tx_outs}
             # Otherwise, the ScriptSig is empty
             else:
                 script_sig = None
-                if hash_type & 3 in (SIGHASH_NONE, SIGHASH_SINGLE):
+                if hash_type & 0x1F in (SIGHASH_NONE, SIGHASH_SINGLE):
                     sequence = Sequence(0)
             # create a TxIn object with the prev_tx, prev_index and sequence
             # the same as the current tx_in and the script_sig from above
@@ -357,17 +359,17 @@ tx_outs:\n{tx_outs}
                 s += new_tx_in.serialize()
         # add how many outputs there are using encode_varint
         # (none for SIGHASH_NONE, up to and including input_index for SIGHASH_SINGLE)
-        if hash_type & 3 == SIGHASH_NONE:
+        if hash_type & 0x1F == SIGHASH_NONE:
             s += encode_varint(0)
-        elif hash_type & 3 == SIGHASH_SINGLE:
+        elif hash_type & 0x1F == SIGHASH_SINGLE:
             s += encode_varint(input_index + 1)
         else:
             s += encode_varint(len(self.tx_outs))
         # add the serialization of each output
         for i, tx_out in enumerate(self.tx_outs):
-            if hash_type & 3 == SIGHASH_NONE:
+            if hash_type & 0x1F == SIGHASH_NONE:
                 continue
-            elif hash_type & 3 == SIGHASH_SINGLE:
+            elif hash_type & 0x1F == SIGHASH_SINGLE:
                 if i == input_index:
                     s += tx_out.serialize()
                     break
@@ -428,7 +430,7 @@ tx_outs:\n{tx_outs}
         else:
             s += b"\x00" * 32
         if hash_type & SIGHASH_ANYONECANPAY != SIGHASH_ANYONECANPAY and (
-            hash_type & 3
+            hash_type & 0x1F
         ) not in (SIGHASH_SINGLE, SIGHASH_NONE):
             s += self.hash_sequence()
         else:
@@ -461,9 +463,9 @@ tx_outs:\n{tx_outs}
         # add the sequence of the input in 4 bytes, little endian
         s += tx_in.sequence.serialize()
         # add the HashOutputs
-        if (hash_type & 3) not in (SIGHASH_SINGLE, SIGHASH_NONE):
+        if (hash_type & 0x1F) not in (SIGHASH_SINGLE, SIGHASH_NONE):
             s += self.hash_outputs()
-        elif hash_type & 3 == SIGHASH_SINGLE and input_index < len(self.tx_outs):
+        elif hash_type & 0x1F == SIGHASH_SINGLE and input_index < len(self.tx_outs):
             s += hash256(self.tx_outs[input_index].serialize())
         else:
             s += b"\x00" * 32
